@@ -235,7 +235,8 @@ pub struct Const {
 
 #[derive(Serialize, Deserialize, Debug, Clone, PartialEq)]
 pub struct Method {
-    #[serde(default, skip_serializing_if = "BoolExt::is_true")]
+    // Note: `oneway` is skipped when true, so a missing value must be read back as true
+    #[serde(default = "default_true", skip_serializing_if = "BoolExt::is_true")]
     pub oneway: bool,
     pub name: String,
     pub return_type: Type,
@@ -557,6 +558,10 @@ impl Type {
             full_range: Range::new(lookup, start, end),
         }
     }
+}
+
+fn default_true() -> bool {
+    true
 }
 
 trait BoolExt {
